@@ -22,14 +22,34 @@ def rand_text(r):
     return "".join(chr(r.choice(pool)) for _ in range(n))
 
 
+def markup_texts(r, quick):
+    """Strings that are markup to OTHER parts of the library (LaTeX commands, RTF control words, conversion triggers): the
+    width function measures the characters it is given, whatever they spell."""
+    from rtflite.dictionary.unicode_latex import latex_to_unicode as table
+    keys = sorted(k for k in table if all(32 <= ord(c) < 127 for c in k))
+    fixed = ["\\alpha", "\\pm", "\\le", "\\mu", "\\Omega", "\\infty", "\\mathbb{R}", "\\times", "\\line", "\\super x", "\\chpgn",
+             "a^2", "x_1", ">=", "<=", "50% \\pm 2", "{\\b bold}", "\\u8805*", "\\'e9"]
+    fixed = [t.replace("\\\\", "\\") for t in fixed]
+    picked = keys if not quick else r.sample(keys, min(40, len(keys)))
+    out = []
+    for k in fixed + picked:
+        out += [k, "n " + k + " x"]
+    return out
+
+
 def run(ctx):
     r = random.Random(ctx["seed"] * 20 + 3)
     n = 400 if ctx["tier"] == "quick" else 6000
     trials = []
     cases = []
+    directed = markup_texts(r, ctx["tier"] == "quick")
+    n += len(directed)
     for i in range(n):
         font = r.randint(1, 10)
         text = rand_text(r)
+        if i < len(directed):
+            text = directed[i]
+            font = 9 if i % 2 == 0 else font
         trials.append((f"w{i}", font, text))
         cases.append(rt.sx_list([rt.sx_str("c20"), rt.sx_str(f"w{i}"), str(font), rt.sx_str(text)]))
     results = {res["id"]: res for res in rt.run_driver(cases, shards=4)}
@@ -56,7 +76,7 @@ def run(ctx):
         elif w64 is None or w64 == "unsupported" or int(w64) != round(px * 64) or abs(px * 64 - round(px * 64)) > 1e-6:
             fail("corr", "additivity", "corr_C20: model width (advances + kerning) differs from get_string_width at the reference size",
                  font=font, text=text, model_w64=w64, impl_px=px)
-            continue
+            # no `continue`: the relations below are the property itself and may exhibit the concrete failure
         size = r.choice([4, 4.25, 4.3, 5.2, 6, 6.7, 7.5, 8.75, 9, 10.25, 10.5, 11.1, 12, 13.3, 14, 18, 22.75, 24, 36, 48])
         dpi = r.choice([36, 72, 96, 150, 300, 600])
         w_in = get_string_width(text, font=font, font_size=size, unit="in", dpi=dpi)
@@ -75,6 +95,8 @@ def run(ctx):
         extra = chr(r.choice(CHARS))
         if get_string_width(text + extra, font=font, font_size=size, unit="px") < w_px - 1e-9:
             ok = False; fail("holds", "append", "appending a character decreased the width", font=font, text=text, appended=extra, size=size)
+        if text and get_string_width(text[:-1], font=font, font_size=size, unit="px") > w_px + 1e-9:
+            ok = False; fail("holds", "append", "appending a character decreased the width", font=font, text=text[:-1], appended=text[-1], size=size)
         if px > 0 and abs(w_px / size - px / REF) > 0.01 * (px / REF):
             ok = False; fail("holds", "scaling", "width does not scale with the font size to within one percent", font=font, text=text, size=size,
                              per_point=[w_px / size, px / REF])
@@ -85,7 +107,7 @@ def run(ctx):
         if ok:
             stats["ok"] += 1
             if len(samples) < 3:
-                samples.append({"font": font, "text": text, "model_w64": int(w64), "impl_px_at_12": px})
+                samples.append({"font": font, "text": text, "model_w64": w64, "impl_px_at_12": px})
     # unsupported fonts / units
     for bad in (dict(font=0), dict(font=11), dict(font="Comic Sans"), dict(unit="cm")):
         try:
